@@ -19,7 +19,7 @@
 From Coq Require Import List NArith.
 Require Import Base Schema Text Json Parse CanonicalForm Rabin PcfSpec CrcSpec.
 Require Import SchemaTextProofs ParseResolveDefs ParseRejectProofs ParseResolveProofs.
-Require Import ParseForwardDefs ParseForwardLayout ParseForwardProofs ParseForwardHoist.
+Require Import ParseForwardDefs ParseForwardLayout ParseForwardProofs ParseForwardHoist ParseForwardCanon.
 Import ListNotations.
 
 (* per edge: the key the parser computes for a definition / a reference is the specification's
@@ -94,14 +94,24 @@ Theorem C07_any_order_definitions : forall j r,
   forall f, elook f (rcollect r None []) = Some true ->
     named_at (graph_any j) (spec_index r f) f /\ forall i, named_at (graph_any j) i f -> i = spec_index r f.
 Proof. exact C07_definitions_any_order. Qed.
-(* its canonical form is the specification's Parsing Canonical Form of the hoisted document (the
-   writer's guard against cycles of unnamed types is the only other outcome left open: that it
-   does not fire on a parsed tree is not proved; the correspondence run never saw it fire) *)
+(* its canonical form is the specification's Parsing Canonical Form of the hoisted document: the writer's
+   guard against cycles of unnamed types never fires on a parsed graph (proofs/ParseForwardCanon.v), for
+   every fuel from hoist_fuel r on; below that the only other outcome is the model's OutOfFuel *)
 Theorem C07_any_order_canonical : forall j r g,
   spec_valid_any_order j = true -> raw_of_json j = Ok r -> parse_schema j = Ok g ->
-  g = graph_any j /\
-  (canonical_form (hoist_fuel r) g = Ok (rpcf None (hoist r)) \/ is_err (canonical_form (hoist_fuel r) g)).
-Proof. exact C07_resolve_forward_canonical. Qed.
+  g = graph_any j /\ canonical_form (hoist_fuel r) g = Ok (rpcf None (hoist r)).
+Proof. exact C07_resolve_forward_canonical_ok. Qed.
+Theorem C07_any_order_canonical_any_fuel : forall j r g fuel,
+  spec_valid_any_order j = true -> raw_of_json j = Ok r -> parse_schema j = Ok g ->
+  canonical_form fuel g = Ok (rpcf None (hoist r)) \/
+  (canonical_form fuel g = OutOfFuel /\ (fuel < hoist_fuel r)%nat).
+Proof. exact C07_forward_canonical_text_or_oof. Qed.
+(* ... and so is its fingerprint *)
+Theorem C07_any_order_fingerprint : forall j r g fuel,
+  spec_valid_any_order j = true -> raw_of_json j = Ok r -> parse_schema j = Ok g ->
+  (hoist_fuel r <= fuel)%nat ->
+  fingerprint fuel g = Ok (le64 (crc64_avro (rpcf None (hoist r)))).
+Proof. exact C08_forward_fingerprint. Qed.
 (* definition before use is the special case: valid backward => valid in any order, the two
    designated graphs coincide and hoisting changes nothing *)
 Theorem C07_backward_is_any_order : forall j,
@@ -123,6 +133,8 @@ Check doc_fwd_any.               (* a use-before-definition document is valid in
 Check doc_f2_graph.
 Check doc_f2_canonical_by_theorem.
 Check doc_undefined_invalid.
+Check guard_fires_unnamed_cycle.  (* the guard does fire on hand-built graphs: non-vacuity *)
+Check guard_passes_through_record.
 Check C07_resolve_needs_acyclic.
 Check C07_nested_type_refuted.   (* spec-allowed spellings the crate rejects *)
 Check C07_name_on_array_refuted.
